@@ -92,3 +92,23 @@ PROPS["C18"] = {
     "rule": "both encodings x 4 entry points x signature transformations (valid, none, untrusted key, edited after signing, relocated, duplicated, other trusted-looking key) "
             "x decoding failures (base64, XML, round-trip validator, no root, other root element, bad deflate) x {correct, wrong, near-miss, absent} Destination/Issuer/Status x IssueInstant around the boundary",
 }
+
+BIND_TB = ["modelled, not verified: compress/flate (abstract; exercised end to end by the harness), url.Parse / URL.String on the IdP endpoint "
+           "(the model takes the endpoint's raw query as given), etree serialisation of the message"]
+PROPS["C12"] = {
+    "modules": ["SamlVerif.Props.C12"],
+    "trusted_base": BIND_TB,
+    "assumptions": ["inflate(deflate b) = b", "POST-form fields are covered by C14's escaper theorems"],
+    "rule": "24 fixed hostile relay states/name IDs (& = # + % ; ? blanks quotes NUL-free controls, non-ASCII, >80 bytes) x 4 IdP endpoints (with/without query) "
+            "x AuthnRequest/LogoutRequest/LogoutResponse redirects + random strings over a metacharacter alphabet; emitted RawQuery compared byte for byte with the model; "
+            "the real IdP parses every AuthnRequest; codec models (QueryEscape/Unescape, ParseQuery, base64 incl. mutated encodings) against net/url and encoding/base64; "
+            "message IDs under a recording RandReader",
+}
+PROPS["C13"] = {
+    "modules": ["SamlVerif.Props.C13"],
+    "trusted_base": BIND_TB + ["RSA/ECDSA signing and goxmldsig enveloped signing are primitives (parameter `sign`); verification in the harness uses crypto/rsa, "
+                              "crypto/ecdsa directly for the redirect binding and a fresh goxmldsig validation context for XML signatures"],
+    "assumptions": [],
+    "rule": "10 method URIs (8 known + 2 unknown) x RSA 1024/2048/3072/4096 and ECDSA P-256/384/521 keys x endpoints with/without query x relay states, redirect binding; "
+            "POST AuthnRequest, POST/redirect logout messages and ArtifactResolve verified as enveloped signatures; method/key table",
+}
